@@ -192,8 +192,10 @@ def const_value(node, env=None):
 
 def _alpha(port):
     if os.environ.get('RBQL_VERIF_NO_ALPHA'):
+        port.inlined = []
         return []
-    from . import alpha
+    from . import alpha, inline
+    port.inlined = inline.inline_new_helpers(port)
     return alpha.canonicalise(port)
 
 
